@@ -168,6 +168,7 @@ def main(argv):
         cases = oracles.case_from_replay(info)
     else:
         cases = cfg["gen"](seed, tier)
+    assert len({c.cid for c in cases}) == len(cases), "duplicate case ids"
     workdir = os.path.join(BUILD, "run", f"{pid}_{tier}" + ("_replay" if a.replay else ""))
     variants = cfg.get("variants", {}).get(tier, ["plain"])
     res = correspond(pid, cfg, cases, tier, workdir, variants)
